@@ -1,4 +1,4 @@
 #!/bin/sh
 # runs the pinned baseline suite of the repository (guard off); usage: repo_tests.sh [repo dir]
 R=${1:-/repo}
-cd "$R" && env -u MOFUN_VERIF PYTHONDONTWRITEBYTECODE=1 /venv/bin/python -m pytest -ra -q -p no:cacheprovider --timeout=900 --continue-on-collection-errors 2>&1 | tail -8
+cd "$R" && env -u MOFUN_VERIF PYTHONDONTWRITEBYTECODE=1 /venv/bin/python -m pytest -ra -q -p no:cacheprovider --timeout=900 --continue-on-collection-errors 2>&1 | tail -8; rm -f "$R/test-01.cif"
